@@ -4,7 +4,10 @@ R1 STATUS-TABLE: Board::status is the decision table (n = "number of legal moves
    c = "checkers == EMPTY"): (n, not c) -> Checkmate, (n, c) -> Stalemate, (not n, .) -> Ongoing; n's
    origin is len()/count() of MoveGen::new_legal on the receiver.
 R2 RESULT-TABLE (shared with C10): Game::result maps (Checkmate, White to move) -> BlackCheckmates,
-   (Checkmate, Black) -> WhiteCheckmates, Stalemate -> Stalemate."""
+   (Checkmate, Black) -> WhiteCheckmates, Stalemate -> Stalemate.
+R3 IN-CHECK (= C03.R2/R3) and R4 NO-MOVE (= C14.R1, C01.R2-R4): the structural rules behind the two atoms of the
+   table -- the checkers cache is fresh and complete in every produced Board; len() counts what the list builder
+   pushed; the list builder covers every piece kind with the pin and check masks."""
 from .common import *
 from ..bb import bb
 from . import c10
@@ -13,7 +16,7 @@ LEVEL = 'other'
 EXHAUSTIVE = True
 EXPLANATION = ('Predicate abstraction of Board::status over the two atoms (no legal move, not in check) and of Game::result '
                'over (status, side to move): the explicit decision tables are extracted from the MIR and compared.')
-NOT_DECIDED = 'that len() and checkers are themselves right (C14, C03, C01)'
+NOT_DECIDED = 'that the generated move set equals the FIDE move set for every position (values; see C01)'
 KEY = 'board::Board::status'
 SELF = ('mem', ('p', 1))
 ST = 'board::BoardStatus'
@@ -112,6 +115,24 @@ def r1(ctx):
                'MoveGen::new_legal(self)', w)
 
 
+def deps(ctx):
+    """The two atoms of the table must themselves be right.  R3 IN-CHECK (= C03.R2/R3): `checkers` is recomputed from
+    scratch or incrementally after the last placement change by every Board producer, with the full attacker set.
+    R4 NO-MOVE (= C14.R1 and C01.R2-R4): len() of a fresh generator counts exactly the entries the list builder pushed,
+    and the list builder dispatches every piece kind with the pin and check masks."""
+    from . import c03, c14, c01
+    sub = Sub(ctx, {'C03.R2': 'C04.R3', 'C03.R3': 'C04.R3'})
+    rec = c03.r2(sub)
+    c03.r3(sub, rec)
+    sub = Sub(ctx, {'C14.R1': 'C04.R4', 'C01.R2': 'C04.R4', 'C01.R3': 'C04.R4', 'C01.R4': 'C04.R4'})
+    c14.r1(sub)
+    c01.r2(sub)
+    c01.r3(sub)
+    c01.r4(sub)
+
+
 def run(ctx):
+    bb(('unit',), ctx.an())
     r1(ctx)
     c10.r4(ctx, rule='C04.R2', only_status=True)
+    deps(ctx)
